@@ -122,13 +122,15 @@ end Witverif.Text
 C25 as monitors over what can be observed of a `Source`: the requests of a history and, after
 each request, the buffer text and the indentation level (probed with `set_indent`).  The unit of
 brace interpretation is a *piece*: one `\n`-delimited line of one appended fragment (the property's
-"lines" for fragments that split lines).  Nothing here mentions `Witverif.Text.Source`.
+"lines", for fragments that split lines).  Nothing here mentions `Witverif.Text.Source`; only the
+language-level string functions of `RustStr` (`trim`, `starts_with`, `ends_with`, `split_inclusive`).
 
-  (1) content:   `contentStep`   the text is the appended text, up to whitespace at line starts
-  (2) nesting:   `levelStep`     the level is  Σ explicit  +  #opening pieces − #closing pieces  (outside comments)
+  (1) content:   `contentStep`   the text is the appended text, up to whitespace at line starts;
+                                 a failure is classified by which of three precise losses explain it
+  (2) nesting:   `stepVerdict.level`  the level is Σ explicit + #opening pieces − #closing pieces (outside comments)
                  `lineIndentOk`  a line begun at level L starts with 2·L spaces (one level less for a closing piece)
-  (3) literal:   `literalStep`, `literalRegionOk`   literal text changes no level and influences nothing but itself
-  (4) balanced:  `balancedStep`  a brace-balanced fragment restores the level
+  (3) literal:   `stepVerdict.literal`, `neutralRel`  literal text changes no level and influences nothing but itself
+  (4) balanced:  `stepVerdict.balanced`  a brace-balanced fragment restores the level
 -/
 namespace Witverif.Text.SourceSpec
 open RustStr
@@ -166,10 +168,7 @@ def trimStartLine (s : List Char) : List Char := s.dropWhile fun c => isWhite c 
 def firstLine (t : List Char) : List Char := t.takeWhile (· != '\n')
 /-- the fragment has text after a line break -/
 def multiLine (t : List Char) : Bool := (splitNl t).length ≥ 2
-def firstNonWs (l : List Char) : Option Char := (l.dropWhile isWhite).head?
-def lastNonWs (l : List Char) : Option Char := (l.reverse.dropWhile isWhite).head?
 def pop2 (s : List Char) : List Char := s.dropLast.dropLast
-def endsTwoSpaces (s : List Char) : Bool := [' ', ' '].isPrefixOf s.reverse
 
 /-- The three known ways in which the buffer loses content (DESIGN §9 F8). -/
 structure Loss where
@@ -183,7 +182,7 @@ def applicable (prev t : List Char) (interp : Bool) : Loss :=
   let mid := !lineBlank true prev            -- the last line of the buffer already has content
   { cr := crlfToLf t != t,
     trim := mid && multiLine t && (firstLine t).head?.any isWhite,
-    pop := interp && mid && endsTwoSpaces prev && firstNonWs (firstLine t) == some '}' }
+    pop := interp && mid && endsWith prev [' ', ' '] && startsWith (trim (firstLine t)) ['}'] }
 
 /-- The appended text / previous buffer with the given losses applied. -/
 def lossy (l : Loss) (prev t : List Char) : List Char :=
@@ -225,15 +224,15 @@ structure Piece where
 deriving Repr
 
 def piecesOf (interp : Bool) (t : List Char) : List Piece :=
-  let ps := splitNl t
-  ps.map fun p => ⟨p.1, p.2, interp, ps.length == 1⟩
+  (splitNl t).map fun p => ⟨p.1, p.2, interp, (splitNl t).length == 1⟩
 
-def Piece.isComment (p : Piece) : Bool := ['/', '/'].isPrefixOf (p.text.dropWhile isWhite)
-def Piece.opens (p : Piece) : Bool := lastNonWs p.text == some '{'
-def Piece.closes (p : Piece) : Bool := firstNonWs p.text == some '}'
+/-- ignoring surrounding whitespace, the piece starts with `//` / ends with `{` / starts with `}` -/
+def Piece.isComment (p : Piece) : Bool := startsWith (trim p.text) ['/', '/']
+def Piece.opens (p : Piece) : Bool := endsWith (trim p.text) ['{']
+def Piece.closes (p : Piece) : Bool := startsWith (trim p.text) ['}']
 def Piece.hasContent (p : Piece) : Bool := p.text.any (fun c => !isWhite c)
 /-- the piece's text as it is to appear (leading whitespace is dropped in multi-line fragments) -/
-def Piece.shown (p : Piece) : List Char := if p.single then p.text else p.text.dropWhile isWhite
+def Piece.shown (p : Piece) : List Char := if p.single then p.text else trimStart p.text
 
 /-- What the history so far determines, independent of any buffer. -/
 structure Track where
@@ -261,15 +260,6 @@ def Track.piece (tr : Track) (p : Piece) : Track :=
 
 def Track.pieces (tr : Track) (ps : List Piece) : Track := ps.foldl Track.piece tr
 
-/-- plain split at `\n` (k line breaks give k+1 segments) -/
-def segments : List Char → List (List Char)
-  | [] => [[]]
-  | c :: cs =>
-    if c = '\n' then [] :: segments cs
-    else match segments cs with
-      | [] => [[c]]
-      | l :: r => (c :: l) :: r
-
 def spaces (n : Nat) : List Char := List.replicate n ' '
 
 /-- What the output line begun by piece `p` (at tracking state `tr`) must look like. -/
@@ -279,26 +269,32 @@ def lineBeginOk (tr : Track) (p : Piece) (seg : List Char) : Bool :=
   else if !p.hasContent then true                  -- whitespace only: covered by (1)
   else
     let lvl := tr.level - (if tr.eff p && p.closes then 1 else 0)
-    (spaces (2 * lvl.toNat) ++ ((p.shown.reverse.dropWhile isWhite).reverse)).isPrefixOf seg
+    (spaces (2 * lvl.toNat) ++ trimEnd p.shown).isPrefixOf seg
 
-/-- pieces against the output segments they belong to -/
-def lineIndentGo : Track → List Piece → List (List Char) → Bool
+/-- the text up to the first line break, and the text after it -/
+def breakNl : List Char → List Char × List Char
+  | [] => ([], [])
+  | c :: cs => if c = '\n' then ([], cs) else (c :: (breakNl cs).1, (breakNl cs).2)
+
+/-- pieces against the output lines they belong to; `rest` starts at the line of the first piece -/
+def lineIndentGo : Track → List Piece → List Char → Bool
   | _, [], _ => true
-  | _, _ :: _, [] => false
-  | tr, p :: ps, seg :: segs => lineBeginOk tr p seg && lineIndentGo (tr.piece p) ps segs
+  | tr, p :: ps, rest =>
+    lineBeginOk tr p (breakNl rest).1 && lineIndentGo (tr.piece p) ps (breakNl rest).2
 
-/-- Monitor (2b): every line begun by this fragment is indented by its nesting level. -/
-def lineIndentOk (tr : Track) (ps : List Piece) (out : List Char) : Bool :=
-  let segs := segments out
-  let k := (ps.filter (·.nl)).length
-  -- the fragment's pieces occupy the last k+1 segments of the buffer
-  lineIndentGo tr ps (segs.drop (segs.length - (k + 1)))
+/-- the text after the last line break -/
+def lastLine (s : List Char) : List Char := (s.reverse.takeWhile (· != '\n')).reverse
+
+/-- Monitor (2b): every line begun by this fragment is indented by its nesting level.
+`prev`/`out`: the buffer before/after; the fragment's output starts on the last line of `prev`. -/
+def lineIndentOk (tr : Track) (ps : List Piece) (prev out : List Char) : Bool :=
+  lineIndentGo tr ps (out.drop (prev.length - (lastLine prev).length))
 
 /-- `Balanced`: counting the braces of the fragment's own lines (outside comments) from zero, the
 count never goes negative and ends at zero. -/
 def balancedGo : Track → List Piece → Bool
   | tr, [] => tr.level == 0
-  | tr, p :: ps => let tr' := tr.piece p; decide (0 ≤ tr'.level) && tr'.levelOk && balancedGo tr' ps
+  | tr, p :: ps => (tr.piece p).levelOk && balancedGo (tr.piece p) ps
 
 def Balanced (t : List Char) : Bool := balancedGo Track.init (piecesOf true t)
 
@@ -312,7 +308,7 @@ inductive Req
   | append (sub : List Char) (subIndent : Nat)   -- append_src of a buffer with this text and level
 deriving Repr
 
-/-- buffer text and probed level after a request; `none` = the request panicked -/
+/-- buffer text and probed level after a request -/
 structure Obs where
   indent : Nat
   s : List Char
@@ -333,26 +329,33 @@ deriving Repr, DecidableEq
 def Verdict.good (v : Verdict) : Bool :=
   v.content == .ok && v.level && v.lineIndent && v.literal && v.balanced && v.api
 
+/-- good except for content losses of the known classes -/
+def Verdict.goodModuloKnown (v : Verdict) : Bool :=
+  v.content != .other && v.level && v.lineIndent && v.literal && v.balanced && v.api
+
+/-- `append_src` is within the property's domain when both buffers are on a line boundary -/
+def appendInDomain (tr : Track) (sub : List Char) : Bool :=
+  !tr.midLine && (sub.isEmpty || sub.getLast? == some '\n')
+
 def trackReq (tr : Track) : Req → Track
   | .text interp t => tr.pieces (piecesOf interp t)
   | .indent n => { tr with level := tr.level + n }
   | .deindent n => { tr with level := tr.level - n }
   | .setIndent n => { tr with level := n, levelOk := true }
   | .append sub subIndent =>
-    if !tr.midLine && (sub.isEmpty || sub.getLast? == some '\n') then
-      { tr with level := tr.level + subIndent, inComment := false }
+    if appendInDomain tr sub then { tr with level := tr.level + subIndent, inComment := false }
     else { tr with sync := false }
 
 /-- Does the model-independent expectation say the request must panic? -/
 def mustPanic (tr : Track) : Req → Bool
-  | .deindent n => tr.levelOk && tr.level < n
+  | .deindent n => tr.level < n
   | _ => false
 
 /-- The monitors for one request: `prev` observed before, `o` after. -/
 def stepVerdict (tr : Track) (prev : Obs) (r : Req) (o : Obs) : Verdict :=
   let tr' := trackReq tr r
-  let lvlOk := !(tr'.levelOk && tr'.sync) || decide ((o.indent : Int) = tr'.level)
-  let base : Verdict := { level := lvlOk, checkedLevel := tr'.levelOk && tr'.sync }
+  let base : Verdict :=
+    { level := !tr'.levelOk || decide ((o.indent : Int) = tr'.level), checkedLevel := tr'.levelOk }
   if !tr.sync then {} else
   match r with
   | .text interp t =>
@@ -360,7 +363,7 @@ def stepVerdict (tr : Track) (prev : Obs) (r : Req) (o : Obs) : Verdict :=
     let bal := interp && !tr.inComment && Balanced t
     { base with
       content := contentStep prev.s o.s t interp,
-      lineIndent := lineIndentOk tr ps o.s,
+      lineIndent := lineIndentOk tr ps prev.s o.s,
       literal := interp || o.indent == prev.indent,
       balanced := !bal || o.indent == prev.indent,
       checkedBalanced := bal && ps.any (·.opens) }
@@ -382,16 +385,20 @@ def monitor (tr : Track) (prev : Obs) : List (Req × Option Obs) → List Verdic
   | (r, none) :: _ => [{ api := !tr.sync || !tr.levelOk || mustPanic tr r }]
   | (r, some o) :: rest => stepVerdict tr prev r o :: monitor (trackReq tr r) o rest
 
-/-- Monitor (3b), metamorphic: two runs of the same history that differ only in the non-whitespace
-characters of literal fragments.  `a`, `b` are the final buffers, `keep` marks (for run `a`,
-position by position) the characters that do not stem from literal text.  The buffers must have
-equal length and agree wherever `keep` holds. -/
-def literalRegionOk : List Char → List Char → List Bool → Bool
-  | [], [], [] => true
-  | x :: a, y :: b, k :: keep => (!k || x == y) && literalRegionOk a b keep
-  | _, _, _ => false
+/-! ### (3b) literal text influences nothing but itself (metamorphic) -/
 
 /-- the neutral variant of a literal fragment: every non-whitespace character becomes `x` -/
 def neutral (t : List Char) : List Char := t.map fun c => if isWhite c then c else 'x'
+
+/-- Two buffers obtained from the same history, the second with all literal fragments
+neutralised: same length, and they differ at most where the first has a non-whitespace
+character and the second the neutral `x`. -/
+def neutralRel : List Char → List Char → Bool
+  | [], [] => true
+  | a :: as, b :: bs => (a == b || (!isWhite a && b == 'x')) && neutralRel as bs
+  | _, _ => false
+
+/-- Monitor (3b) for one pair of observations of the two runs. -/
+def literalPairOk (a b : Obs) : Bool := a.indent == b.indent && neutralRel a.s b.s
 
 end Witverif.Text.SourceSpec
